@@ -27,8 +27,10 @@ type capHandler struct {
 }
 
 func (h *capHandler) Enabled(context.Context, slog.Level) bool { return true }
-func (h *capHandler) WithAttrs([]slog.Attr) slog.Handler         { panic("WithAttrs is not used by the logger") }
-func (h *capHandler) WithGroup(string) slog.Handler              { panic("WithGroup is not used by the logger") }
+func (h *capHandler) WithAttrs([]slog.Attr) slog.Handler {
+	panic("WithAttrs is not used by the logger")
+}
+func (h *capHandler) WithGroup(string) slog.Handler { panic("WithGroup is not used by the logger") }
 func (h *capHandler) Handle(_ context.Context, r slog.Record) error {
 	ns, nsSeen := "", 0
 	var attrs []string
@@ -96,6 +98,7 @@ type lgSUT struct {
 	cap     *capHandler
 	sink    *textSink
 	shut    bool
+	early   []string // what the sink held at the moment the root's Shutdown returned
 	seq     int
 }
 
@@ -143,8 +146,15 @@ func (s *lgSUT) records() []any {
 		var lines []string
 		if s.shut {
 			// the handler's worker has been shut down and drained by Shutdown: nothing is in flight
+			flushStep := s.early != nil
+			lines, s.early = s.early, nil
 			time.Sleep(200 * time.Microsecond)
-			lines = s.sink.take()
+			for _, l := range s.sink.take() {
+				if flushStep {
+					l = "written after Shutdown returned: " + l
+				}
+				lines = append(lines, l)
+			}
 		} else {
 			// the handler writes asynchronously on ONE worker in submission order: a marker record logged through the root
 			// at the highest level comes out after everything that was logged before
@@ -245,7 +255,14 @@ func (s *lgSUT) Apply(e core.Ev) (any, any) {
 		}()
 	case "Shutdown":
 		i := core.Int(e, "i")
+		flush := i == 1 && s.kind == "text" && !s.shut
+		if flush {
+			s.loggers[0].Log("bye", log.LevelPanic) // must have been written when Shutdown returns
+		}
 		s.loggers[i-1].Shutdown()
+		if flush {
+			s.early = append([]string{}, s.sink.take()...) // no waiting: Shutdown has returned
+		}
 		if i == 1 {
 			s.shut = true
 		}
